@@ -53,12 +53,13 @@ type SrvConnPlan struct {
 }
 
 type SrvScenario struct {
-	Conns           []SrvConnPlan
-	ReadTimeout     time.Duration // server knob
-	CutServerReads  bool
-	LatencyMax      time.Duration
-	ReplyTimeout    time.Duration
-	StatelessDevice bool // writes are validated and echoed but not stored
+	Conns            []SrvConnPlan
+	ReadTimeout      time.Duration // server knob
+	CutServerReads   bool
+	LatencyMax       time.Duration
+	ReplyTimeout     time.Duration
+	StatelessDevice  bool // writes are validated and echoed but not stored
+	SharedHandlerErr bool // typed handler errors are one shared value (sentinel idiom)
 }
 
 type SrvConnOut struct {
@@ -91,6 +92,8 @@ func (r rawResp) FunctionCode() uint8 { return r.fc }
 func (r rawResp) Bytes() []byte       { return r.b }
 
 type srvHandler struct {
+	sharedErr bool
+	sentinel  *packet.ErrorParseTCP
 	s         *Sim
 	dev       map[byte]*Device // per unit id
 	seed      uint64
@@ -131,6 +134,16 @@ func (h *srvHandler) Handle(ctx context.Context, req packet.Request) (packet.Res
 	}
 	switch mode {
 	case HTypedErrCtor:
+		if h.sharedErr {
+			// the ordinary sentinel-error idiom: one error value, returned every time
+			h.mu.Lock()
+			if h.sentinel == nil {
+				h.sentinel = packet.NewErrorParseTCP(packet.ErrServerBusy, "handler refuses (sentinel)") // one code for every request: replies stay a function of the request
+			}
+			e := h.sentinel
+			h.mu.Unlock()
+			return nil, e
+		}
 		return nil, packet.NewErrorParseTCP(code, "handler refuses")
 	case HTypedErrFull:
 		return nil, &packet.ErrorParseTCP{Message: "handler refuses", Packet: packet.ErrorResponseTCP{TransactionID: tid, UnitID: unit, Function: req.FunctionCode(), Code: code}}
@@ -176,7 +189,7 @@ func RunSrv(rc *RunCtx, sc *SrvScenario, sched *Tape, seed uint64, twinReplyLens
 	defer s.Activate()()
 
 	ln := NewListener(s, "L")
-	h := &srvHandler{s: s, dev: map[byte]*Device{}, seed: seed, modes: map[uint16]*SrvReq{}, out: out, stateless: sc.StatelessDevice}
+	h := &srvHandler{s: s, dev: map[byte]*Device{}, seed: seed, modes: map[uint16]*SrvReq{}, out: out, stateless: sc.StatelessDevice, sharedErr: sc.SharedHandlerErr}
 	for ci := range sc.Conns {
 		for ri := range sc.Conns[ci].Reqs {
 			r := &sc.Conns[ci].Reqs[ri]
